@@ -86,7 +86,14 @@ Definition effect_contract (senders : list addr) (s : state) (t : tx) : Prop :=
   evm_effect_nonce_ok t ∧
   ∀ a, a ∈ senders → evm_effect_mono_at a s t.
 
-(* codes: 21 value/fee contract, 22 sender nonce, 23 a sender's nonce lowered *)
+(* value that vanished: the part of the touched accounts' loss that gas does not explain.  The
+   contract allows it (SELFDESTRUCT to the contract's own address destroys the balance); the
+   histories of the correspondence check contain no such program and watch every address their
+   programs can pay, so there it must be 0 — code 24, reported as lost value *)
+Definition effect_burn (l : ledgers) (price : Z) (e : evm_effect) : Z :=
+  - (sumZ_with (λ x : addr * Z * Z, x.1.2 - bal_of l x.1.1) (e_accts e) + e_gas e * price).
+
+(* codes: 21 value/fee contract, 22 sender nonce, 23 a sender's nonce lowered, 24 value vanished *)
 Definition effect_codes (senders : list addr) (s : state) (t : tx) : list Z :=
   if evm_path s t && is_ok (deliver s t).2 then
     match t_evm t with
@@ -94,7 +101,8 @@ Definition effect_codes (senders : list addr) (s : state) (t : tx) : list Z :=
     | Some e =>
         (if effect_fee_b (work s) t (g_gasPrice (gparams s)) e then [] else [21]) ++
         (if effect_nonce_b t then [] else [22]) ++
-        (if forallb (λ a, effect_mono_at_b a s t) senders then [] else [23])
+        (if forallb (λ a, effect_mono_at_b a s t) senders then [] else [23]) ++
+        (if effect_burn (work s) (g_gasPrice (gparams s)) e =? 0 then [] else [24])
     end
   else [].
 
@@ -105,6 +113,7 @@ Proof.
   destruct (effect_fee_b _ _ _ _) eqn:Ef; [|discriminate].
   destruct (effect_nonce_b t) eqn:En; [|discriminate].
   destruct (forallb _ senders) eqn:Em; [|discriminate].
+  clear H.
   split; [|split].
   - destruct (effect_fee_b_sound _ _ _ _ Ef) as [burn Hb]. exists e, burn. split; [reflexivity|exact Hb].
   - apply effect_nonce_b_sound. exact En.
